@@ -27,7 +27,7 @@ var c02ExcludedTypes = map[string]string{
 	"flows.WebhookCall": "run.webhook is the deliberately transient last-webhook value the property exempts (@webhook); it is rebuilt from the run's events by lastWebhookSavedAsExtra on read, and its MarshalJSON only serves the expression context",
 }
 
-func isMarshalName(n string) bool   { return n == "MarshalJSON" || n == "marshal" }
+func isMarshalName(n string) bool { return n == "MarshalJSON" || n == "marshal" }
 func isReadName(n string) bool {
 	return n == "UnmarshalJSON" || n == "unmarshal" || strings.HasPrefix(n, "read") || strings.HasPrefix(n, "Read")
 }
